@@ -7,7 +7,7 @@
     ([strconv.ParseFloat] then [json.Marshal]) results that the harness
     computed with the real library for every float token of the input. *)
 From Coq Require Import List NArith Bool.
-From Verif Require Import Lib.Utf8 Jsonx.Lex Jsonx.Tok Jsonx.GoStr Jsonx.Num
+From Verif Require Import Lib.Utf8 Jsonx.Lex Jsonx.Pos Jsonx.Tok Jsonx.GoStr Jsonx.Num
   Jsonx.Parse Jsonx.Json Jsonx.Encode Jsonx.Print.
 Import ListNotations.
 Local Open Scope N_scope.
@@ -62,12 +62,15 @@ Inductive uobs :=
 Inductive ccase :=
 | CUtf8 (input : list N) (runes : list N)
 | CRaw (input : list N) (toks : list (N * list N)) (errs : list N)
+| CRawPos (input : list N) (poss : list (N * N)) (eofp : N * N) (eposs : list (N * N))
 | CFiltered (input : list N) (toks : list (N * list N)) (errs : list N)
 | CPTokens (input : list N) (toks : list (N * list N)) (errs : list N)
 | CToJson (input : list N) (ft : ftable) (out : option (list N)) (errs : list N)
 | CUnmarshal (input : list N) (ft : ftable) (obs : uobs)
 | CSeries (input : list N) (ft : ftable) (known : list (list N))
+          (rejects : list (list N * list N))
           (out : option (list (list N * list N))) (errs : list N)
+| CStream (input : list N) (ft : ftable) (vals : list (list N)) (fin : N) (errs : list N)
 | CShell (input : list N) (out : option (list (list N))) (errs : list N)
 | CUnquote (lit : list N) (out : option (list N))
 | CJsonQuote (bs : list N) (out : list N)
@@ -82,6 +85,8 @@ Definition raw_toks (l : list (token * list ecode)) : list (N * list N) :=
 Definition p_toks (l : list ptok) : list (N * list N) :=
   map (fun t => (tyN (pty t), plit t)) l ++ [(tyN TEOF, [])].
 
+Definition pair_eqb_N (a b : N * N) : bool := (fst a =? fst b) && (snd a =? snd b).
+
 Definition check_case (c : ccase) : bool :=
   match c with
   | CUtf8 input runes => list_N_eqb (utf8_decode input) runes
@@ -89,6 +94,15 @@ Definition check_case (c : ccase) : bool :=
       match jsonx_raw_tokens (utf8_decode input) with
       | Ok raw => list_eqb tok_eqb (raw_toks raw) toks
                   && list_N_eqb (codes (all_lex_errs raw)) errs
+      | _ => false
+      end
+  | CRawPos input poss eofp eposs =>
+      let rs := utf8_decode input in
+      match jsonx_raw_tokens rs with
+      | Ok raw =>
+          let ps := tok_positions is_white start_pos raw rs in
+          list_eqb pair_eqb_N ps poss && pair_eqb_N (eof_pos rs) eofp
+          && list_eqb pair_eqb_N (err_positions raw ps) eposs
       | _ => false
       end
   | CFiltered input toks errs =>
@@ -116,10 +130,21 @@ Definition check_case (c : ccase) : bool :=
       | Ok UMore, OMore => true
       | _, _ => false
       end
-  | CSeries input ft known out errs =>
+  | CSeries input ft known rejects out errs =>
       match decode_series (flookup ft) (fun t => t)
-              (fun n => existsb (list_N_eqb n) known) (utf8_decode input) with
+              (fun n => if existsb (list_N_eqb n) known
+                        then Some (fun t => negb (existsb (pair_eqb (n, t)) rejects))
+                        else None)
+              (utf8_decode input) with
       | Ok (o, e) => opt_eqb (list_eqb pair_eqb) o out && list_N_eqb (codes e) errs
+      | _ => false
+      end
+  | CStream input ft vals fin errs =>
+      (* fin: 0 = More() became false; 1 = Decode returned errors; 2 = json.Unmarshal failed *)
+      match decode_all (flookup ft) (fun t => t) (utf8_decode input) with
+      | Ok (vs, None) => list_eqb list_N_eqb vs vals && (fin =? 0)
+      | Ok (vs, Some (DErrs e)) => list_eqb list_N_eqb vs vals && (fin =? 1) && list_N_eqb (codes e) errs
+      | Ok (vs, Some (DJsonErr _)) => list_eqb list_N_eqb vs vals && (fin =? 2)
       | _ => false
       end
   | CShell input out errs =>
